@@ -252,13 +252,16 @@ def rule_loop_free(chk, funcs, names):
                 w = None if res.is_zero() or ctx.maybe_equal(res, Poly()) else ctx.witness(res, v + Poly.const(1))
                 if w is not None:
                     whole = False
-                    bad = bad or (k, res, w)
+                    bad = bad if (bad and bad[2] is not None) else (k, res, w)
                     continue
+                res0 = res
                 ok, res = ctx.prove_zero(res)
                 if not ok:
                     whole = False
-                    w = ctx.witness(res, v + Poly.const(1))
-                    bad = bad or (k, res, w)
+                    # the fingerprint points did not separate the sides and the proof failed: search the sample points with the residual as first written
+                    # (the proof attempt may have multiplied it by denominators, which distorts the scale the search compares against)
+                    w = ctx.witness(res0, v + Poly.const(1), tries=1200) or ctx.witness(res, v + Poly.const(1))
+                    bad = bad if (bad and (bad[2] is not None or w is None)) else (k, res, w)
             n += 1
             if whole:
                 chk.holds('reflection-symmetry', nm, node=funcs[nm], file=RS, func=nm,
